@@ -473,7 +473,8 @@ def run(ctx):
         F = g.f(crate)
         for fn in F.fns_named("from_int"):
             self_ty = gpath(crate, fn["self_ty"]) if fn["self_ty"] else None
-            if self_ty and self_ty not in paired:
+            if self_ty and self_ty not in paired and "/src/manual/" not in "/" + (fn["file"] or ""):
+                # (types under src/manual/ are hand-written, not generated from a wowm enum: DateTime's Month / Weekday are decided by C15)
                 unpaired.append((self_ty, fn["file"], fn["line"]))
     for st, f, l in unpaired:
         ctx.violate("enum.tables", f"{st}|unpaired", f"Rust enum {st} has from_int but no wowm enum is paired with it", f, l)
